@@ -9,11 +9,11 @@ structure Inv (W : World) (s : St) : Prop where
   dsOff : s.dsBool = false
   gSp : s.gSp = match s.spImage with | some (.given i) => some i | _ => none
   spDown : ∀ m z, s.spImage = some (.down m z) → s.att = some m ∧ s.zoom = some z
-  scatt : ∀ p, s.spImage = some p → s.scatt = some ⟨p, s.thr⟩
+  scatt : ∀ p, s.spImage = some p → s.scatt = some ⟨p, s.thr, s.rnd⟩
   actCache : ∀ p c a t, s.spImage = some p → s.actCache = some c → s.act = some a → s.tmpl = some t →
-      c.rows = W.nsp ⟨p, s.thr⟩ ∧ c.cols = t.totalDetectors ∧ (c.stamps = [] ∨ c.stamps = [⟨a, ⟨p, s.thr⟩, t⟩])
+      c.rows = W.nsp ⟨p, s.thr, s.rnd⟩ ∧ c.cols = t.totalDetectors ∧ (c.stamps = [] ∨ c.stamps = [⟨a, ⟨p, s.thr, s.rnd⟩, t⟩])
   attCache : ∀ p c m t, s.spImage = some p → s.attCache = some c → s.att = some m → s.tmpl = some t →
-      c.rows = W.nsp ⟨p, s.thr⟩ ∧ c.cols = t.totalDetectors ∧ (c.stamps = [] ∨ c.stamps = [⟨m, ⟨p, s.thr⟩, t⟩])
+      c.rows = W.nsp ⟨p, s.thr, s.rnd⟩ ∧ c.cols = t.totalDetectors ∧ (c.stamps = [] ∨ c.stamps = [⟨m, ⟨p, s.thr, s.rnd⟩, t⟩])
   eff : ∀ x e t, s.effNoScatter = some x → s.exam = some e → s.tmpl = some t → x = ⟨e, t⟩
   maxCos : ∀ x e t, s.alreadySetUp = true → s.maxCos = some x → s.exam = some e → s.tmpl = some t → x = ⟨e, t⟩
   detPts : ∀ t, s.tmpl = some t → s.detPts = [] ∨ s.detPts = [t]
@@ -82,6 +82,18 @@ theorem inv_setCacheEnabled (W : World) (s : St) (b : Bool) (h : Inv W s) (g : o
   obtain ⟨h1, h2, h3, h4, h5, h6, h7, h8, h9, h10, h11⟩ := h
   simp only [opOk] at g
   constructor <;> (simp only [setCacheEnabled] at *) <;> (first | assumption | grind)
+
+theorem inv_setRndPlace (W : World) (s : St) (b : Bool) (h : Inv W s) (g : opOk s (.setRndPlace b) = true) :
+    Inv W (setRndPlace b s) := by
+  obtain ⟨h1, h2, h3, h4, h5, h6, h7, h8, h9, h10, h11⟩ := h
+  simp only [opOk, Bool.or_eq_true, Option.isNone_iff_eq_none, beq_iff_eq] at g
+  constructor <;> (simp only [setRndPlace] at *) <;> (first | assumption | grind)
+
+/-- by file name: `set_exam_info` needs no guard here, the template setter that follows resets
+    `detector_efficiency_no_scatter` -/
+theorem inv_setTemplateFile (W : World) (s : St) (e : Nat) (t : Tmpl) (h : Inv W s) : Inv W (setTemplateFile e t s) := by
+  obtain ⟨h1, h2, h3, h4, h5, h6, h7, h8, h9, h10, h11⟩ := h
+  constructor <;> (simp only [setTemplateFile, setTemplate, setTemplateVal, setExam] at *) <;> (first | assumption | grind)
 
 theorem inv_setUseCache (W : World) (s : St) (b : Bool) (h : Inv W s) (g : opOk s (.setUseCache b) = true) :
     Inv W (setUseCache b s) := by
@@ -159,7 +171,7 @@ theorem inv_finishSetUp (W : World) (s : St) (t : Tmpl) (e a m : Nat) (p : SpPro
     (hz : W.zOk a = true) (hmc : s.maxCos = none) : Inv W (finishSetUp W s t) := by
   obtain ⟨h1, h2, h3, h4, h5, h6, h7, h8, h9, h10, h11⟩ := h
   unfold finishSetUp
-  have hn : nspOf W s = W.nsp ⟨p, s.thr⟩ := by simp [nspOf, h5 p hp]
+  have hn : nspOf W s = W.nsp ⟨p, s.thr, s.rnd⟩ := by simp [nspOf, h5 p hp]
   cases hu : s.useCache with
   | false =>
     simp only [initialiseCache_off]
@@ -237,8 +249,8 @@ theorem inv_setUp (W : World) (s0 : St) (h0 : Inv W s0) : Inv W (setUp W s0).1 :
 
 
 /-- what `process` computes from when every input is current -/
-def expectedOut (W : World) (t : Tmpl) (e a m : Nat) (p : SpProv) (thr : Nat) : Out :=
-  let sc : ScattProv := ⟨p, thr⟩
+def expectedOut (W : World) (t : Tmpl) (e a m : Nat) (p : SpProv) (thr : Nat) (rnd : Bool) : Out :=
+  let sc : ScattProv := ⟨p, thr, rnd⟩
   if W.nsp sc = 0 then
     { tmpl := t, detPts := [t], scatt := some sc, emis := [], atten := [], maxCos := none, eff := ⟨e, t⟩ }
   else
@@ -249,7 +261,7 @@ theorem insertNew_cases {σ : Type} [DecidableEq σ] (x : σ) (l : List σ) (h :
 
 theorem process_ok (W : World) (s : St) (h : Inv W s) (hs : s.alreadySetUp = true) :
     ∃ t e a m p, s.tmpl = some t ∧ s.exam = some e ∧ s.act = some a ∧ s.att = some m ∧ s.spImage = some p ∧
-      (process W s).2 = (.ok, some (expectedOut W t e a m p s.thr)) := by
+      (process W s).2 = (.ok, some (expectedOut W t e a m p s.thr s.rnd)) := by
   obtain ⟨h1, h2, h3, h4, h5, h6, h7, h8, h9, h10, h11⟩ := h
   obtain ⟨t, e, a, m, p, ht, he, ha, hm, hp, hz, hc⟩ := h11 hs
   refine ⟨t, e, a, m, p, ht, he, ha, hm, hp, ?_⟩
@@ -265,7 +277,7 @@ theorem process_ok (W : World) (s : St) (h : Inv W s) (hs : s.alreadySetUp = tru
     | some x => simp [h9 x e t hs hx he ht]
   unfold process expectedOut
   simp only [hs, Bool.not_true, Bool.false_eq_true, if_false, ht, he, ha, hm, hsc, nspOf, hdet, heff, hmax]
-  by_cases hn : W.nsp ⟨p, s.thr⟩ = 0
+  by_cases hn : W.nsp ⟨p, s.thr, s.rnd⟩ = 0
   · simp [hn]
   · simp only [hn, if_false]
     cases hu : s.useCache with
@@ -294,7 +306,7 @@ theorem inv_process (W : World) (s : St) (h : Inv W s) : Inv W (process W s).1 :
       | some x => simp [h9 x e t hs hx he ht]
     unfold process
     simp only [hs, Bool.not_true, Bool.false_eq_true, if_false, ht, he, ha, hm, hsc, nspOf, hdet, heff, hmax]
-    by_cases hn : W.nsp ⟨p, s.thr⟩ = 0
+    by_cases hn : W.nsp ⟨p, s.thr, s.rnd⟩ = 0
     · simp only [hn, if_true]
       constructor <;> (simp only at *) <;> (first | assumption | grind)
     · simp only [hn, if_false]
@@ -346,21 +358,21 @@ theorem setUseCache_eq (b : Bool) (s : St) :
 theorem configure_fields (c : St) (t : Tmpl) (e a m : Nat)
     (hg : c.gTmpl = some t) (he : c.exam = some e) (ha : c.act = some a) (hm : c.att = some m) :
     (configure c).tmpl = some t ∧ (configure c).gTmpl = some t ∧ (configure c).exam = some e ∧ (configure c).act = some a ∧
-    (configure c).att = some m ∧ (configure c).thr = c.thr ∧ (configure c).zoom = c.zoom ∧ (configure c).useCache = c.useCache ∧
+    (configure c).att = some m ∧ (configure c).thr = c.thr ∧ (configure c).rnd = c.rnd ∧ (configure c).zoom = c.zoom ∧ (configure c).useCache = c.useCache ∧
     (configure c).dsBool = c.dsBool ∧ (configure c).alreadySetUp = false ∧ (configure c).effNoScatter = none ∧
     (configure c).maxCos = none ∧ (configure c).detPts = [] ∧ (configure c).actCache = none ∧ (configure c).attCache = none ∧
     (configure c).gSp = c.gSp ∧
-    (configure c).spImage = (c.gSp.map SpProv.given) ∧ (configure c).scatt = (c.gSp.map fun i => ⟨.given i, c.thr⟩) := by
+    (configure c).spImage = (c.gSp.map SpProv.given) ∧ (configure c).scatt = (c.gSp.map fun i => ⟨.given i, c.thr, c.rnd⟩) := by
   unfold configure
   simp only [hg, he, ha, hm, setDsBool_eq, setDsRings_eq, setDsDets_eq, setUseCache_eq]
   cases hz : c.zoom <;> cases hs : c.gSp <;>
-    simp [setSpImage, sampleScatterPoints, setZoom, setDensity, setActivity, setExam, setTemplate, setTemplateVal, setThr, init]
+    simp [setSpImage, sampleScatterPoints, setZoom, setDensity, setActivity, setExam, setTemplate, setTemplateVal, setThr, setRndPlace, init]
 
 
 theorem inv_configure (W : World) (c : St) (t : Tmpl) (e a m : Nat)
     (hg : c.gTmpl = some t) (he : c.exam = some e) (ha : c.act = some a) (hm : c.att = some m) (hds : c.dsBool = false) :
     Inv W (configure c) := by
-  obtain ⟨f1, f2, f3, f4, f5, f6, f7, f8, f9, f10, f11, f12, f13, f14, f15, f16, f17, f18⟩ := configure_fields c t e a m hg he ha hm
+  obtain ⟨f1, f2, f3, f4, f5, f6, fr, f7, f8, f9, f10, f11, f12, f13, f14, f15, f16, f17, f18⟩ := configure_fields c t e a m hg he ha hm
   cases hsp : c.gSp with
   | none =>
     simp only [hsp, Option.map_none] at f16 f17 f18
@@ -383,7 +395,7 @@ theorem setUp_none (W : World) (s : St) (t : Tmpl) (e a m z : Nat)
     (hzo : s.zoom = some z) (hsu : s.alreadySetUp = false)
     (hds : s.dsBool = false) (hz : W.zOk a = true) :
     setUp W s =
-      (finishSetUp W { s with maxCos := none, spImage := some (.down m z), gSp := none, scatt := some ⟨.down m z, s.thr⟩,
+      (finishSetUp W { s with maxCos := none, spImage := some (.down m z), gSp := none, scatt := some ⟨.down m z, s.thr, s.rnd⟩,
                               actCache := none, attCache := none } t, .ok) := by
   unfold setUp
   simp [ht, he, ha, hm, hp, hds, hz, hzo, hsu, downsampleSp, sampleScatterPoints]
@@ -400,24 +412,24 @@ theorem freshOut_of_setUp (W : World) (c s1 : St) (o : Option Out) (h1 : setUp W
 theorem fresh_from (W : World) (c s1 : St) (t : Tmpl) (e a m : Nat) (p : SpProv)
     (hset : setUp W (configure c) = (s1, .ok)) (hinv : Inv W s1) (hsu : s1.alreadySetUp = true)
     (ht : s1.tmpl = some t) (he : s1.exam = some e) (ha : s1.act = some a) (hm : s1.att = some m)
-    (hp : s1.spImage = some p) (hthr : s1.thr = c.thr) :
-    freshOut W c = (.ok, some (expectedOut W t e a m p c.thr)) := by
+    (hp : s1.spImage = some p) (hthr : s1.thr = c.thr) (hrnd : s1.rnd = c.rnd) :
+    freshOut W c = (.ok, some (expectedOut W t e a m p c.thr c.rnd)) := by
   obtain ⟨t', e', a', m', p', ht', he', ha', hm', hp', hres⟩ := process_ok W s1 hinv hsu
   rw [ht] at ht'; rw [he] at he'; rw [ha] at ha'; rw [hm] at hm'; rw [hp] at hp'
   cases ht'; cases he'; cases ha'; cases hm'; cases hp'
-  rw [hthr] at hres
+  rw [hthr, hrnd] at hres
   exact freshOut_of_setUp W c s1 _ hset hres
 
 /-- on a state that satisfies the invariant and is set up, a freshly configured object computes from exactly
     the current inputs -/
 theorem freshOut_eq (W : World) (c : St) (h : Inv W c) (hs : c.alreadySetUp = true) :
     ∃ t e a m p, c.tmpl = some t ∧ c.exam = some e ∧ c.act = some a ∧ c.att = some m ∧ c.spImage = some p ∧
-      freshOut W c = (.ok, some (expectedOut W t e a m p c.thr)) := by
+      freshOut W c = (.ok, some (expectedOut W t e a m p c.thr c.rnd)) := by
   obtain ⟨t, e, a, m, p, ht, he, ha, hm, hp, hz, _⟩ := h.ready hs
   refine ⟨t, e, a, m, p, ht, he, ha, hm, hp, ?_⟩
   have hg : c.gTmpl = some t := by rw [h.gTmpl, ht]
   have hds := h.dsOff
-  obtain ⟨f1, f2, f3, f4, f5, f6, f7, f8, f9, f10, f11, f12, f13, f14, f15, f16, f17, f18⟩ := configure_fields c t e a m hg he ha hm
+  obtain ⟨f1, f2, f3, f4, f5, f6, fr, f7, f8, f9, f10, f11, f12, f13, f14, f15, f16, f17, f18⟩ := configure_fields c t e a m hg he ha hm
   have hic := inv_configure W c t e a m hg he ha hm hds
   have hsu := inv_setUp W (configure c) hic
   cases p with
@@ -429,7 +441,7 @@ theorem freshOut_eq (W : World) (c : St) (h : Inv W c) (hs : c.alreadySetUp = tr
     rw [hset] at hsu
     exact fresh_from W c _ t e a m (.given i) hset hsu (by simp [finishSetUp]) (by simp [finishSetUp, f1])
       (by simp [finishSetUp, f3]) (by simp [finishSetUp, f4]) (by simp [finishSetUp, f5]) (by simp [finishSetUp, f17])
-      (by simp [finishSetUp, f6])
+      (by simp [finishSetUp, f6]) (by simp [finishSetUp, fr])
   | down m' z =>
     obtain ⟨hm', hzo⟩ := h.spDown m' z hp
     have : m' = m := by rw [hm] at hm'; exact (Option.some.inj hm').symm
@@ -441,7 +453,7 @@ theorem freshOut_eq (W : World) (c : St) (h : Inv W c) (hs : c.alreadySetUp = tr
     rw [hset] at hsu
     exact fresh_from W c _ t e a m' (.down m' z) hset hsu (by simp [finishSetUp]) (by simp [finishSetUp, f1])
       (by simp [finishSetUp, f3]) (by simp [finishSetUp, f4]) (by simp [finishSetUp, f5]) (by simp [finishSetUp])
-      (by simp [finishSetUp, f6])
+      (by simp [finishSetUp, f6]) (by simp [finishSetUp, fr])
 
 
 /-! ### histories -/
@@ -460,6 +472,8 @@ theorem inv_step (W : World) (s : St) (op : Op) (h : Inv W s) (g : opOk s op = t
   | setThr t => exact inv_setThr W s t h g
   | setCacheEnabled b => exact inv_setCacheEnabled W s b h g
   | setUseCache b => exact inv_setUseCache W s b h g
+  | setRndPlace b => exact inv_setRndPlace W s b h g
+  | setTemplateFile e t => exact inv_setTemplateFile W s e t h
   | setDsBool b => exact inv_setDsBool W s b h g
   | setDsRings n => exact inv_setDsRings W s n h
   | setDsDets n => exact inv_setDsDets W s n h
@@ -480,6 +494,111 @@ theorem inv_runGuarded (W : World) (ops : List Op) (s s' : St) (h : Inv W s) (hr
       generalize hst : step W s op = x at hr hi
       obtain ⟨s1, r, o⟩ := x
       cases r <;> simp only at hr <;> first | exact ih s1 hi hr | cases hr
+    · simp [g] at hr
+
+/-! ### enabling the cache on a set-up object, `set_up` next -/
+
+/-- the state right after the cache was enabled on an object that was set up with the cache disabled: the invariant
+    holds except that the arrays are not allocated -/
+def Pending (W : World) (s : St) : Prop :=
+  ∃ s0, Inv W s0 ∧ s0.alreadySetUp = true ∧ s0.useCache = false ∧ (s = setCacheEnabled true s0 ∨ s = setUseCache true s0)
+
+theorem finishSetUp_congr (W : World) (s : St) (t : Tmpl) (b : Bool) :
+    finishSetUp W { s with alreadySetUp := b } t = finishSetUp W s t := by
+  simp [finishSetUp, nspOf]
+
+/-- … the `set_up` that follows succeeds and restores the invariant: `initialise_cache_…` allocates what is missing and
+    keeps an array of the right size, which can only hold current values (every setter removed "its" array whether or
+    not the cache was enabled) -/
+theorem pending_setUp (W : World) (s : St) (h : Pending W s) : (setUp W s).2 = .ok ∧ Inv W (setUp W s).1 := by
+  obtain ⟨s0, hinv, hsu, huc, hs⟩ := h
+  obtain ⟨t, e, a, m, p, ht, he, ha, hm, hp, hz, _⟩ := hinv.ready hsu
+  have hds := hinv.dsOff
+  have key : ∀ s1 : St, s1.tmpl = some t → s1.exam = some e → s1.act = some a → s1.att = some m → s1.spImage = some p →
+      s1.dsBool = false → Inv W { s1 with alreadySetUp := false, maxCos := none } →
+      (setUp W s1).2 = .ok ∧ Inv W (setUp W s1).1 := by
+    intro s1 h1 h2 h3 h4 h5 h6 hi
+    rw [setUp_some W s1 t e a m p h1 h2 h3 h4 h5 h6 hz]
+    refine ⟨rfl, ?_⟩
+    have := inv_finishSetUp W { s1 with alreadySetUp := false, maxCos := none } t e a m p hi h1 h2 h3 h4 h5 hz rfl
+    have hc := finishSetUp_congr W { s1 with maxCos := none } t false
+    simp only at hc this ⊢
+    rw [← hc]
+    exact this
+  rcases hs with hs | hs
+  · subst hs
+    refine key _ ht he ha hm hp hds ?_
+    obtain ⟨h1, h2, h3, h4, h5, h6, h7, h8, h9, h10, h11⟩ := hinv
+    constructor <;> (simp only [setCacheEnabled] at *) <;> (first | assumption | grind)
+  · subst hs
+    have hne : ¬ (true = s0.useCache) := by simp [huc]
+    refine key _ (by simp [setUseCache, hne, ht]) (by simp [setUseCache, hne, he]) (by simp [setUseCache, hne, ha])
+      (by simp [setUseCache, hne, hm]) (by simp [setUseCache, hne, hp]) (by simp [setUseCache, hne, hds]) ?_
+    obtain ⟨h1, h2, h3, h4, h5, h6, h7, h8, h9, h10, h11⟩ := hinv
+    simp only [setUseCache, hne, if_false]
+    constructor <;> (simp only at *) <;> (first | assumption | grind)
+
+theorem not_opOk_enable (s : St) (op : Op) (g : ¬ opOk s op = true) (he : isEnable op = true) :
+    s.alreadySetUp = true ∧ s.useCache = false ∧ (op = .setCacheEnabled true ∨ op = .setUseCache true) := by
+  cases op with
+  | setCacheEnabled b => cases b <;> simp_all [isEnable, opOk]
+  | setUseCache b => cases b <;> simp_all [isEnable, opOk]
+  | _ => simp [isEnable] at he
+
+theorem inv_runGuarded2 (W : World) (ops : List Op) (s s' : St)
+    (h : Inv W s ∨ (Pending W s ∧ nextIsSetUp ops = true)) (hr : runGuarded2 W s ops = some s') : Inv W s' := by
+  induction ops generalizing s with
+  | nil =>
+    rcases h with h | ⟨_, hn⟩
+    · simp only [runGuarded2, Option.some.injEq] at hr; exact hr ▸ h
+    · simp [nextIsSetUp] at hn
+  | cons op rest ih =>
+    unfold runGuarded2 at hr
+    rcases h with h | ⟨hp, hn⟩
+    · by_cases g : opOk s op = true
+      · simp only [g, Bool.true_or, Bool.not_true, Bool.false_eq_true, if_false] at hr
+        have hi := inv_step W s op h g
+        generalize hst : step W s op = x at hr hi
+        obtain ⟨s1, r, o⟩ := x
+        cases r <;> simp only at hr <;> first | exact ih s1 (Or.inl hi) hr | cases hr
+      · have g' : opOk s op = false := by simpa using g
+        by_cases hen : (isEnable op && nextIsSetUp rest) = true
+        · simp only [g', hen, Bool.or_true, Bool.not_true, Bool.false_eq_true, if_false] at hr
+          simp only [Bool.and_eq_true] at hen
+          obtain ⟨hsu, huc, hop⟩ := not_opOk_enable s op g hen.1
+          rcases hop with hop | hop <;> subst hop
+          · simp only [step] at hr
+            exact ih _ (Or.inr ⟨⟨s, h, hsu, huc, Or.inl rfl⟩, hen.2⟩) hr
+          · simp only [step] at hr
+            exact ih _ (Or.inr ⟨⟨s, h, hsu, huc, Or.inr rfl⟩, hen.2⟩) hr
+        · have : (isEnable op && nextIsSetUp rest) = false := by simpa using hen
+          simp [g', this] at hr
+    · have hop : op = .setUp := by
+        cases op <;> simp [nextIsSetUp] at hn
+        rfl
+      subst hop
+      obtain ⟨hok, hi⟩ := pending_setUp W s hp
+      simp only [opOk, Bool.true_or, Bool.not_true, Bool.false_eq_true, if_false, step] at hr
+      generalize hst : setUp W s = x at hr hi hok
+      obtain ⟨s1, r⟩ := x
+      simp only at hok hi
+      subst hok
+      simp only at hr
+      exact ih s1 (Or.inl hi) hr
+
+/-- the weaker guard admits every history the stronger one admits -/
+theorem runGuarded2_of_runGuarded (W : World) (ops : List Op) (s s' : St) (hr : runGuarded W s ops = some s') :
+    runGuarded2 W s ops = some s' := by
+  induction ops generalizing s with
+  | nil => simpa [runGuarded, runGuarded2] using hr
+  | cons op rest ih =>
+    unfold runGuarded at hr
+    unfold runGuarded2
+    by_cases g : opOk s op = true
+    · simp only [g, Bool.not_true, Bool.false_eq_true, if_false, Bool.true_or] at hr ⊢
+      generalize hst : step W s op = x at hr ⊢
+      obtain ⟨s1, r, o⟩ := x
+      cases r <;> simp only at hr ⊢ <;> first | exact ih s1 hr | cases hr
     · simp [g] at hr
 
 /-- under the invariant `process` does not crash, and if it succeeds its provenance is that of a fresh object -/
